@@ -4004,6 +4004,26 @@ class LoopNode(ActionSinkNode, ActionSourceNode):
                 if transition.target in sub_dfa.accepting_states:
                     raise IllegalDFAStateConflictsError("Ambigious loop: should loop or continue matching", transition)
 
+        # A symbol that continues the last match of the body must not also be able to start the next iteration
+        def symbols_matched(state, transition):
+            if DFTransition.Else not in transition.on_values:
+                return set(transition.on_values)
+            everything = set(chr(x) for x in range(256)) | {DFTransition.End}
+            return (everything - state.local_alphabet()) | (set(transition.on_values) - {DFTransition.Else})
+
+        start_state = sub_dfa.starting_state
+        if not isinstance(start_state, DFConditionPoint):
+            for accept_state in sub_dfa.accepting_states:
+                if accept_state is start_state or isinstance(accept_state, DFConditionPoint):
+                    continue
+                for transition in accept_state.all_transitions():
+                    if transition.error_handling:
+                        continue
+                    continuing = symbols_matched(accept_state, transition)
+                    for start_transition in start_state.all_transitions():
+                        if not start_transition.error_handling and continuing & symbols_matched(start_state, start_transition):
+                            raise IllegalDFAStateConflictsError("Ambigious loop: should loop or continue matching", transition, start_transition)
+
         # If there are error-handling transitions on the accept node, point them to the starting node as fallthrough (so that anything that _isn't_ getting matched by 
         # the last node gets forwarded to the start, looping). If there are no transitions on the final node, point everything to the start.
         for accept_state in sub_dfa.accepting_states:
